@@ -384,6 +384,8 @@ enum Chunk {
     Recursive(usize),
     /// one pipeline template with boundary constants in its two holes
     Template(usize),
+    /// cyclic typing evidence of every period up to 60, driven directly on the unifier
+    Rings,
 }
 
 fn plan(tier: Tier) -> Vec<Chunk> {
@@ -405,6 +407,7 @@ fn plan(tier: Tier) -> Vec<Chunk> {
     for t in 0..crate::templates::TEMPLATES {
         v.push(Chunk::Template(t));
     }
+    v.push(Chunk::Rings);
     v
 }
 
@@ -471,6 +474,27 @@ impl Check for C03 {
                     }
                     true
                 });
+            }
+            Chunk::Rings => {
+                for (n, set, desc) in crate::c14::ring_sets() {
+                    ctx.case(|| json!({"judgements": crate::unif::set_json(&set), "n": n, "plan": []}));
+                    ctx.count("pipeline_runs", 1);
+                    ctx.count("ring_judgement_sets", 1);
+                    let (out, _) = crate::unif::run(n, &set, &Vec::new());
+                    match out {
+                        crate::unif::Outcome::OverBudget => ctx.violation(
+                            "unification-over-budget:rings",
+                            format!("unification of cyclic evidence was still running after {} polls [{desc}]", crate::unif::BUDGET),
+                            json!({"judgements": crate::unif::set_json(&set), "n": n, "plan": []}),
+                        ),
+                        crate::unif::Outcome::Panic(p) => ctx.violation(
+                            format!("panic:{}", panic_site(&p)),
+                            format!("unification panicked: {p} [{desc}]"),
+                            json!({"judgements": crate::unif::set_json(&set), "n": n, "plan": []}),
+                        ),
+                        _ => {}
+                    }
+                }
             }
             Chunk::Template(t) => {
                 // loops over 256-bit constants inside the lifting passes (power-of-two tests, mask scans, span arithmetic)
@@ -573,7 +597,7 @@ impl Check for C03 {
              and 3 settings beyond. The VM is driven directly: finishes within an analytic step budget, per-state visit counts <= \
              iteration limit, per-target fork counts <= fork limit, states <= 1 + forks x jumpdests, cumulative minimum gas <= limit + \
              one instruction. (b) all stack-safe read-mask-write sequences <= {} over 10 tokens{}: analyze() must finish within {} \
-             polls under the canonical order and under every single deviation at the unification / storage-export order points; (c) 280 programs whose slot types refer to themselves or to each other: analyze() must finish (rendering a recursive type must stop); (d) 16 pipeline templates (mask / shift / divide / multiply packing, hashing, exp / sar / signextend / byte) with boundary constants (0, 1, 2^k, 2^k+-1, 2^255+1, 2^256-1, ...) in their two holes: analyze() must finish. \
+             polls under the canonical order and under every single deviation at the unification / storage-export order points; (c) 280 programs whose slot types refer to themselves or to each other: analyze() must finish (rendering a recursive type must stop); (d) 16 pipeline templates (mask / shift / divide / multiply packing, hashing, exp / sar / signextend / byte) with boundary constants (0, 1, 2^k, 2^k+-1, 2^255+1, 2^256-1, ...) in their two holes: analyze() must finish; (e) the ring family of C14 (cyclic typing evidence of every period up to 60) driven on the unifier: it must finish within its poll budget. \
              non-trivial = (program, limits) where some limit actually fired, or a cyclic-family program; distinct by content",
             if tier.thorough() { 7 } else { 6 },
             if tier.thorough() { 5 } else { 4 },
@@ -598,6 +622,14 @@ impl Check for C03 {
     }
     fn replay(&self, replay: &Value) -> bool {
         let c = &replay["case"];
+        if c.get("judgements").is_some() {
+            let set = crate::unif::set_from_json(&c["judgements"]);
+            let n = c["n"].as_u64().unwrap_or(3) as usize;
+            println!("judgements: {}", crate::unif::show_set(&set));
+            let (out, _) = crate::unif::run(n, &set, &Vec::new());
+            println!("outcome: {}", match &out { crate::unif::Outcome::OverBudget => "still running at the poll budget".to_string(), crate::unif::Outcome::Panic(p) => format!("panic: {p}"), _ => "finished".to_string() });
+            return matches!(out, crate::unif::Outcome::OverBudget | crate::unif::Outcome::Panic(_));
+        }
         let code = unhex(c["bytes"].as_str().unwrap());
         println!("code: {}", hex(&code));
         if c.get("iterations").is_some() {
